@@ -2,7 +2,7 @@
 //@ append src/find/mod.rs
 //@ module verif_enum_find
 //@ harness e_operand_scan kind=enum props=C18 bound=<<0..=3 leading operands over {x, ./y, -, (old), !keep, a b} followed by one of: nothing, -print, ! -name z, ( -true ), -name q>> label=<<the starting points are the leading operands up to the first argument that begins with '-' (other than '-' itself) or is exactly '!', '(', ')' or ','; no operand means '.'>>
-//@ harness e_roots kind=enum props=C18,C02,C07 bound=<<1..=3 starting points over an existing directory spelled D/a, D/./a, D/a/, D/a//, D/b, a file D/b/f and a missing D/missing, real tree x -P/-H/-L x -mindepth absent, 1, or 2 with -maxdepth 1 (an empty range: nothing evaluated, missing starting points still diagnosed) x with or without -name f -print0 -quit>> label=<<starting points are walked in the order given, each path reported begins with its starting point as spelled, and a starting point that cannot be examined gives a non-zero exit status without stopping the others>>
+//@ harness e_roots kind=enum props=C18,C02,C07 bound=<<1..=3 starting points over an existing directory spelled D/a, D/./a, D/a/, D/a//, D/b, a file D/b/f and a missing D/missing, real tree x -P/-H/-L x with and without -sorted x -mindepth absent, 1, or 2 with -maxdepth 1 (an empty range: nothing evaluated, missing starting points still diagnosed) x with or without -name f -print0 -quit>> label=<<starting points are walked in the order given, each path reported begins with its starting point as spelled, and a starting point that cannot be examined gives a non-zero exit status without stopping the others>>
 //@ harness e_walk_h_link_depth kind=enum props=C02 bound=<<the same tree; -H with the link to a directory as starting point and -depth; mindepth and maxdepth each absent or 0..=3>> label=<<the multiset of entries evaluated equals the independent walk for `find -H LINK-TO-DIRECTORY ... -depth`>>
 //@ harness e_walk kind=enum props=C02 bound=<<(all combinations except -H + link-to-directory starting point + -depth, which is e_walk_h_link_depth) a real tree with files, directories two levels deep, a link to a file, a link to a directory, a dangling link, a link to an ancestor directory (a cycle under -L) with a later sibling; starting point the tree, the link to a directory or the dangling link; -P/-H/-L; mindepth and maxdepth each absent or 0..=3; -depth on/off>> label=<<the multiset of entries evaluated equals an independent lstat/stat walk: every entry with mindepth <= depth <= maxdepth exactly once; links descended only where the follow mode says so; a dangling link visited as a link; a link closing a directory cycle neither evaluated nor followed, its siblings still visited>>
 //@ harness e_prune kind=enum props=C03 bound=<<a real tree r/{a/{x, skip/{h, inner/}}, skip/{k}, m -> ../real (a link to a directory holding files), z}; the name to prune is skip, m, a or z; -P/-L; -maxdepth absent, 2 or 3; default order, -depth, or the word -delete only as an operand of -name>> label=<<find R ( -name X -prune -o -print ): in the default order exactly the descendants of the directories named X (as the follow mode sees them) are left out and everything else is visited in pre-order; under -depth nothing is cut; a word that merely looks like -delete among the operands changes nothing>>
@@ -67,6 +67,8 @@ mod verif_enum_find {
         let mind = mind_k >= 1;
         let mut args: Vec<&str> = vec!["find", mode];
         for &c in &chosen { args.push(&spell[c].0); }
+        // -sorted orders directory contents only (every directory here has one child): the starting points keep the order given
+        if pick(2) == 1 { args.push("-sorted"); }
         if mind_k == 1 { args.extend_from_slice(&["-mindepth", "1"]); }
         if mind_k == 2 { args.extend_from_slice(&["-mindepth", "2", "-maxdepth", "1"]); }
         if quit { args.extend_from_slice(&["-name", "f", "-print0", "-quit"]); } else { args.push("-print0"); }
